@@ -112,4 +112,13 @@ example :
     (icptRun.subs 0).pullIDEnded 7 = false := by
   decide
 
+/-- Necessity of "the announced id is the stored one": the same run with the REMOVE announced under the spelling
+`Delete` was CALLED with (205) instead of its image (5) — every other event unchanged.  The consumer's fold keeps the
+deleted item although the store no longer has it, and the `PullID` stream of the item does not end. -/
+example :
+    let evs' : List (Event Int) := (icptRun.subs 0).evs.map (fun e => if e.new.isNone then { e with id := 205 } else e)
+    let sub' : Sub Int := { icptRun.subs 0 with evs := evs' }
+    icptRun.store 5 = none ∧ sub'.view 5 = some 2 ∧ sub'.pullIDEnded 5 = false ∧ sub'.pullID 5 = [1, 2] := by
+  decide
+
 end ScVerif.C03
